@@ -8,6 +8,7 @@ package main
 
 import (
 	"context"
+	"errors"
 	"sync"
 	"time"
 )
@@ -103,11 +104,12 @@ func (c qPlainCtx) Done() <-chan struct{}       { return c.in.done }
 func (c qPlainCtx) Value(key any) any           { return nil }
 func (c qPlainCtx) Err() error                  { return c.in.Err() }
 
-// newQCallerCtx builds a caller context of one of three kinds:
+// newQCallerCtx builds a caller context of one of four kinds:
 //
 //	std    context.WithCancel(Background): the derived context is cancelled inside cancel()
 //	watch  non-stdlib, no AfterFunc: a watcher goroutine propagates
 //	gated  non-stdlib with AfterFunc: propagates when propagate() is called
+//	cause  context.WithCancelCause(Background), cancelled with a cause that is not a context error
 //
 // propagate is a no-op for the first two.
 func newQCallerCtx(kind string) (ctx context.Context, cancel func(), propagate func()) {
@@ -119,6 +121,13 @@ func newQCallerCtx(kind string) (ctx context.Context, cancel func(), propagate f
 		in := newQLateCtx()
 		return in, in.cancel, in.propagate
 	}
+	if kind == "cause" {
+		// a stdlib context cancelled with a cause of the caller's own: Err() is still context.Canceled
+		c, cf := context.WithCancelCause(context.Background())
+		return c, func() { cf(errQCallerCause) }, func() {}
+	}
 	c, cf := context.WithCancel(context.Background())
 	return c, cf, func() {}
 }
+
+var errQCallerCause = errors.New("caller gave up: tenant quota exceeded")
